@@ -152,6 +152,8 @@ def main(ctx, args):
     lo_res = run_c05(lo_cases) if lo_cases else {}
     # the per-program proof obligation: `stateOkFn` (Model/MirState.lean) on every function of the MIR the compiler produced
     static = pc.mir_static(allcases + lo_cases)
+    # and the state semantics itself: trace, cursor and storage words of the Lean MIR run against the VM's hook records, per sample
+    mtr = pc.mir_traces(allcases)
     failures, stats, nontriv, samples = [], collections.Counter(), set(), []
     layout_diffs, layout_samples, layout_nontriv = [], [], set()
 
@@ -233,6 +235,44 @@ def main(ctx, args):
             sstat["programs_with_a_failing_function_whose_traces_conform"] += 1
             if len(s_limits) < 5:
                 s_limits.append({"src": c["src"], "failing_functions": st["fail"]})
+    tstat, t_bad = collections.Counter(), []
+
+    def canon_words(ws):
+        """state words with every NaN written `nan` (the property's own convention; Lean's Float.toBits canonicalises NaN)"""
+        if ws == ".":
+            return ws
+        out = []
+        for w in ws.split(","):
+            v = int(w, 16)
+            out.append("nan" if (v >> 52) & 0x7ff == 0x7ff and v & ((1 << 52) - 1) else w)
+        return ",".join(out)
+    for c in allcases:
+        status, skel, recs, verdict, pub = res[c["id"]]
+        m = mtr.get(c["id"], "missing")
+        if status != "ok" or recs in ("-", ""):
+            continue
+        if not m.startswith("ok "):
+            tstat["mir_run_" + m.split(" ")[0]] += 1
+            if c["id"] not in failed_ids and not m.startswith("unsupported"):
+                t_bad.append((c, "the MIR run ends `" + m[:80] + "` where the VM runs and conforms", None))
+            continue
+        tstat["programs_compared"] += 1
+        vm_recs, mir_recs = recs.split("|"), m[3:].split("|")
+        for k, (a, b) in enumerate(zip(vm_recs, mir_recs)):
+            fa, fb = a.split("@"), b.split("@")
+            # the hook also records accesses to closure storages (g=0): the MIR run's trace is that of the global storage
+            ga = ";".join(x for x in fa[0].split(";") if x.split(":")[1:2] == ["1"]) or "."
+            tstat["samples_compared"] += 1
+            if (ga, fa[1], canon_words(fa[2])) != (fb[0], fb[1], canon_words(fb[2])):
+                tstat["samples_differ"] += 1
+                if c["id"] not in failed_ids:
+                    t_bad.append((c, f"sample {k}: VM trace/cursor/words {ga}@{fa[1]}@{fa[2][:120]} vs MIR run {fb[0]}@{fb[1]}@{fb[2][:120]}", k))
+                break
+        else:
+            if len(vm_recs) != len(mir_recs):
+                t_bad.append((c, f"{len(vm_recs)} VM records vs {len(mir_recs)} MIR records", None))
+            else:
+                tstat["programs_equal"] += 1
     for c in lo_cases:
         st = static.get(c["id"], {"status": "missing"})
         if st["status"] == "ok":
@@ -285,6 +325,13 @@ def main(ctx, args):
                 rep["src"], rep["sx"] = rep["shrunk"]["src"], rep["shrunk"]["sx"]
             ctx.violation(f"the state layout the Lean model of mirgen publishes for dsp differs from the compiler's on {len(group)} programs, {label} "
                           f"(compiler {skel}, model {pi.get('model')}); smallest:\n{rep['src']}", rep)
+    if t_bad and not failures:
+        t_bad.sort(key=lambda f: len(f[0]["src"]))
+        c, why, k = t_bad[0]
+        ctx.violation(f"state semantics of the MIR: {why} ({len(t_bad)} programs) — Model/Mir.lean (vmStep on the MIR's state instructions) and the VM "
+                      f"disagree about the accesses or the storage words; smallest:\n{c['src']}",
+                      {"src": c["src"], "inputs": c["inputs"], "times": c["times"], "why": "mir-trace:" + why[:300], "case_id": c["id"],
+                       "correspondence": "drv_mir trace vs VM hook records"}, found_input=False)
     if s_contra and not failures:
         s_contra.sort(key=lambda f: len(f[0]["src"]))
         c, why, st = s_contra[0]
@@ -310,6 +357,10 @@ def main(ctx, args):
                     "passes must have conforming VM traces (else violation); a failing function with conforming traces is a limitation",
             **dict(sstat), "limitations_samples": s_limits, "contradictions": len(s_contra),
             "kernel_evaluated_examples_are_current_compiler_output": example_state},
+        "mir_run_vs_vm_state_records": {
+            "rule": "per sample: the accesses to the global storage the Lean MIR run records (Model/Mir.lean: vmStep on the MIR's state instructions), "
+                    "the cursor after the sample and EVERY word of the global storage, against the VM's hook records (text equality)",
+            **dict(tstat), "disagreements": len(t_bad)},
         "published_layout_model_vs_compiler": {
             "rule": "publishedSk (publishFn P dsp) of Model/Publish.lean, computed from the program's S-expression, equals get_dsp_state_skeleton of the real compiler (text equality of the skeleton); non-trivial = at least 2 cells",
             "compared": stats["layouts_compared"], "of_which_layout_only_stream_f3_f2": stats["layout_only_programs"],
